@@ -199,7 +199,9 @@ func (f *Fetcher) processNotification(notification announcesBatch, fetchTimer *t
 		})
 	}
 
-	if first && len(f.fetching) != 0 {
+	// arm the timer also when nothing is being fetched yet (a batch announced while fetching is
+	// suspended): otherwise these announces would never be looked at again
+	if first && f.announces.Len() != 0 {
 		f.rescheduleFetch(fetchTimer)
 	}
 }
